@@ -182,30 +182,119 @@ def prog_str(prog, vec_names=None) -> str:
 
 # ---------------------------------------------------------------------------------------------------
 # real objects
+N_SYMS = 10
+SYM_NAMES = ["F", "F", "G", "v3", "F", "G", "v6", "F", "v8", "G"]     # distinct symbols may share a display name
+
+
 class Pool:
-    """Pre-created leaves.  Operand ordering in the library is by id(): 8 vector symbols and 8 applied vector
-    functions are created once (before the workers fork), sorted by id(), and the roles a b c d / f g h are
-    given to them by rank, so every relative address order is exercised deterministically."""
+    """Pre-created leaves and compound operands.  Operand ordering in the library is by id(), also of the cross
+    products that occur as operands of other products.  N_SYMS vector symbols and the cross product object of
+    every pair of them (the very object the library's cached constructors hand out, args in id order) are created
+    once, before the workers fork, interleaved with filler allocations so that the addresses of symbols and cross
+    objects interleave; all are kept alive.  Roles a b c d are given to symbols by index in the id-sorted list,
+    chosen so that every relative order of the operand objects (symbols and pre-created crosses) occurs (see
+    `assignments`).  Several symbols share a display name: names are labels, distinct symbols stay distinct.
+    8 applied vector functions are created likewise; f g h take three of them by rank."""
 
     def __init__(self):
         import sympy as sp
-        from symplyphysics.core.experimental.vectors import VectorFunction, VectorSymbol
+        from symplyphysics.core.experimental.vectors import VectorCross, VectorFunction, VectorSymbol
+        self._cross = VectorCross
         self.t = sp.Symbol("t", real=True)
         self.x = sp.Symbol("x", real=True)
         self.y = sp.Symbol("y", real=True)
-        self.syms = sorted((VectorSymbol(f"v{i}") for i in range(8)), key=id)
+        created, crosses, self._keep = [], {}, []
+        for i in range(N_SYMS):
+            sym = VectorSymbol(SYM_NAMES[i])
+            for other in created:
+                v, w = sorted((other, sym), key=id)
+                crosses[(v, w)] = VectorCross(v, w, evaluate=False)
+            created.append(sym)
+            fill = [VectorSymbol(f"fill{i}_{k}") for k in range(60)]
+            self._keep.append(fill)
+            self._keep.append([VectorCross(fill[k], fill[k + 1], evaluate=False) for k in range(59)])
+        self.syms = sorted(created, key=id)
+        self.comp = {}
+        for (v, w), obj in crosses.items():
+            self.comp[(self.syms.index(v), self.syms.index(w))] = obj
+        self.names = [str(sym.display_name) for sym in self.syms]
         self.fun_classes = [VectorFunction(f"F{i}") for i in range(8)]
         self.funs = sorted((f(self.t) for f in self.fun_classes), key=id)
-        self.sym_slots = [self.syms[i] for i in (0, 2, 5, 7)]
         self.fun_slots = [self.funs[i] for i in (1, 3, 6)]
-        self.extra_sym = self.syms[4]
+        self._assign_cache = {}
+
+    def touch(self) -> int:
+        """Keep the pre-created cross objects the most recently used entries of SymPy's cache, so that the
+        library's constructors keep handing out these very objects; returns how many were lost (0 expected)."""
+        lost = 0
+        for (i, j), obj in self.comp.items():
+            if self._cross(self.syms[i], self.syms[j], evaluate=False) is not obj:
+                lost += 1
+        return lost
 
     def leaves(self, order, forder=(0, 1, 2)):
-        """order: ranks of the roles a b c d (a permutation of 0..3); forder: ranks of f g h."""
-        vec = {i + 1: self.sym_slots[order[i]] for i in range(4)}
+        """order: index (in the id-sorted symbol list) of the symbol playing a, b, c, d; forder: ranks of f g h."""
+        vec = {i + 1: self.syms[order[i]] for i in range(len(order))}
         for i in range(3):
             vec[5 + i] = self.fun_slots[forder[i]]
         return {"vec": vec, "scal": {1: self.x, 2: self.y, 3: self.t}}
+
+    # -- which id() orders a program can see ---------------------------------------------------------
+    def objects(self, sig, order):
+        """ids of the operand objects of a program signature under a role assignment: the symbols of the used
+        roles, then the pre-created cross object of every cross(leaf, leaf) node."""
+        roles, pairs = sig
+        ids = [id(self.syms[order[r - 1]]) for r in roles]
+        for r, q in pairs:
+            i, j = sorted((order[r - 1], order[q - 1]))
+            ids.append(id(self.comp[(i, j)]))
+        return ids
+
+    def assignments(self, sig, strength: int, cap: int):
+        """Role assignments (tuples of 4 symbol indices) such that every relative id() order of every `strength`
+        operand objects that some assignment realises is realised by a chosen one, and every pair of roles is seen
+        both with equal and with different display names; greedy cover, at most `cap`, deterministic."""
+        key = (sig, strength, cap)
+        if key in self._assign_cache:
+            return self._assign_cache[key]
+        roles, pairs = sig
+        nobj = len(roles) + len(pairs)
+        groups = list(itertools.combinations(range(nobj), min(strength, nobj)))
+        cands = []
+        for pick in itertools.permutations(range(N_SYMS), len(roles)):
+            order = [0, 1, 2, 3]
+            free = [i for i in range(N_SYMS) if i not in pick]
+            full = {}
+            for r, idx in zip(roles, pick):
+                full[r] = idx
+            for r in (1, 2, 3, 4):
+                if r not in full:
+                    full[r] = free.pop(0)
+            order = tuple(full[r] for r in (1, 2, 3, 4))
+            ids = self.objects(sig, order)
+            feats = set()
+            for g in groups:
+                feats.add((g, tuple(sorted(g, key=lambda k: ids[k]))))
+            for r, q in itertools.combinations(roles, 2):
+                feats.add(("name", r, q, self.names[full[r]] == self.names[full[q]]))
+            cands.append((order, feats))
+        universe = set().union(*(f for _, f in cands)) if cands else set()
+        chosen, covered = [], set()
+        while covered != universe and len(chosen) < cap:
+            best = max(cands, key=lambda c: len(c[1] - covered))
+            if not best[1] - covered:
+                break
+            chosen.append(best[0])
+            covered |= best[1]
+        if not chosen:
+            chosen = [(0, 1, 2, 3)]
+        self._assign_cache[key] = (chosen, len(covered), len(universe))
+        return self._assign_cache[key]
+
+    def pattern(self, sig, order):
+        """The relative id() order of the operand objects (for evidence and replay files)."""
+        ids = self.objects(sig, order)
+        return sorted(range(len(ids)), key=lambda k: ids[k])
 
     def env(self, leaves, assign):
         """Evaluation environment of one assignment for the given role assignment."""
@@ -219,7 +308,7 @@ class Pool:
             env[obj] = ("s", s_int(scals[j - 1]))
         return env
 
-    def names(self, leaves):
+    def names_of(self, leaves):
         """object -> token, for the compiler."""
         out = {}
         for i, obj in leaves["vec"].items():
@@ -229,6 +318,33 @@ class Pool:
         for j, obj in leaves["scal"].items():
             out[obj] = ["scal", j]
         return out
+
+
+def signature(prog):
+    """(roles used, cross(leaf, leaf) pairs) of a program: the operand objects whose id() order the harness
+    controls.  A leaf stays a leaf under negation and scaling (the library splits the factor off)."""
+    st, pairs, roles = [], set(), set()
+    for op, k in prog:
+        if op == "vec":
+            st.append(k if k <= 4 else None)
+            if k <= 4:
+                roles.add(k)
+            continue
+        if op in ("scal", "int"):
+            st.append(None)
+            continue
+        n = ARITY.get(op, 2)
+        args = st[-n:]
+        del st[-n:]
+        if op == "neg":
+            st.append(args[0])
+        elif op == "scalev":
+            st.append(args[1])
+        else:
+            if op == "cross" and args[0] and args[1] and args[0] != args[1]:
+                pairs.add(tuple(sorted(args)))
+            st.append(None)
+    return tuple(sorted(roles)), tuple(sorted(pairs))
 
 
 def covering_orders(n_quick: int = 6):
@@ -271,7 +387,8 @@ def forders_for(prog):
     return out
 
 
-ARITY = {"vec": 0, "dvec": 0, "scal": 0, "int": 0, "neg": 1, "norm": 1, "pow": 1, "abs": 1, "sign": 1, "mixed": 3}
+ARITY = {"vec": 0, "dvec": 0, "scal": 0, "int": 0, "neg": 1, "norm": 1, "pow": 1, "abs": 1, "sign": 1, "sqrt": 1,
+         "mixed": 3}
 
 
 def build(prog, leaves, evaluate: bool):
